@@ -506,8 +506,13 @@ def _run_history(sc, want_idempotence=True, faults=None, audits=True):
                 if rv[0] == 'INTERNAL':
                     violations.append(viol('I-internal', 'internal error escaped: %s: %s [verify after %s]' % (rv[1], rv[2], what), sig=rv[1]))
                 elif not (rv[0] == 'ok' and rv[1] is True):
-                    if mv.kind in ('DONTCARE',):
+                    if mv.kind in ('DONTCARE',) and not (scope == '' and set(mv.zones) == {'non-normalised-entry-path'}):
                         zones['verify-after-update:' + ','.join(sorted(set(mv.zones)))] = 1
+                    elif mv.kind in ('DONTCARE',):
+                        # the model is silent about entries whose path is written in a non-canonical form - the statement is
+                        # not: after a completed update of the WHOLE tree gemato's own fresh verification has to succeed
+                        violations.append(viol('audit.verify-after-update', '%s: fresh verification %s (entries with non-canonical paths left in the Manifests)' % (
+                            what, describe(rv)), sig='%s:%s:noncanonical' % (rv[0], rv[1])))
                     elif scope and mv.kind == 'CHAIN' and all(c in stale_before and c not in wr_now for c in mv.chain):
                         zones['subdir-update:stale-reference-outside-scope'] = zones.get('subdir-update:stale-reference-outside-scope', 0) + 1
                     else:
